@@ -11,6 +11,8 @@ package dns
 //@   ensures none: ret0 == nil ==> len(dns.Extra) == old(len(dns.Extra))
 //@   ensures noopt: ret0 == nil ==> (forall k in 0..len(dns.Extra) :: hdr(dns.Extra[k]).Rrtype != 41)
 //@   ensures one:  ret0 != nil ==> len(dns.Extra) == old(len(dns.Extra)) - 1
+// the records around the removed OPT keep their order: those before it stay, those behind it move up by one
+//@   exit order: ret0 != nil ==> (forall k in 0..i :: dns.Extra[k] == old(dns.Extra[k])) && (forall k in i..len(dns.Extra) :: dns.Extra[k] == old(dns.Extra[k+1]))
 //@   loop 1 invariant len(dns.Extra) == old(len(dns.Extra)) && i < len(dns.Extra) && -1 <= i
 //@   loop 1 invariant forall k in i+1..len(dns.Extra) :: hdr(dns.Extra[k]).Rrtype != 41
 //@   modifies H.Msg.Extra.ref H.Msg.Extra.off H.Msg.Extra.len H.Msg.Extra.cap A.RR.tag A.RR.val
